@@ -15,7 +15,7 @@ CLAUSE_PROPS = {
     "group_cells_differ_from_label_meaning": ["C04", "C05"],
     "group_slot_order_or_levels": ["C05"],
     "response_cells_differ_from_label_meaning": ["C15"],
-    "slices_do_not_partition_columns": ["C17"],
+    "slices_do_not_partition_columns": ["C17", "C04"],   # C04: the labels of a term and its columns are equal in number
     "views_disagree": ["C17"],
     "common_rows_not_the_retained_observations": ["C17", "C09"],
     "group_rows_not_the_retained_observations": ["C17", "C09"],
@@ -75,7 +75,37 @@ def _event(args):
     resp = rng.choice(opts.get("resps", ["y"]))
     text, used, struct = gen.gen_formula(rng, groups=opts.get("groups", True), max_terms=opts.get("max_terms", 4), resp=resp, hier=opts.get("hier", 0.85))
     policy = rng.choice(opts.get("policies", ["drop"]))
-    ev, dm = gen.record_build(idx, text, used, w, policy)
+    between = None
+    if opts.get("after_unseen"):
+        # a history step before the design is read: it is evaluated on a frame holding never-seen levels of the
+        # grouping variables and of f (silent mode); what describes the training design must not move
+        def between(dm):
+            import warnings
+
+            from formulae import config
+
+            new = w.df.copy()
+            for col in ("g", "h", "f"):
+                sr = new[col].astype(object)
+                for r in range(len(sr)):
+                    if rng.random() < 0.4:
+                        sr.iloc[r] = "NEW" + str(rng.randint(1, 2))
+                new[col] = sr
+            old = config["EVAL_UNSEEN_CATEGORIES"]
+            config["EVAL_UNSEEN_CATEGORIES"] = "silent"
+            try:
+                with warnings.catch_warnings():
+                    warnings.simplefilter("ignore")
+                    for m in (dm.common, dm.group):
+                        if m is not None:
+                            try:
+                                str(m.evaluate_new_data(new))
+                            except Exception:  # pylint: disable=broad-except
+                                pass
+            finally:
+                config["EVAL_UNSEEN_CATEGORIES"] = old
+
+    ev, dm = gen.record_build(idx, text, used, w, policy, between=between)
     if opts.get("only_resp") and ev["status"] == "ok":
         # judge the response part on its own (the judge names the first failing clause of an event)
         ev["common"], ev["group"] = dict(gen.EMPTY), dict(gen.EMPTY)
